@@ -113,6 +113,82 @@ CLAIMED.update({
          "dispatching into a slow, small B) and judges each store alone; engine L runs single stores.", "5 C19",
          "Coq product/frame theorem + paired free-running stores judged per store (engine F) + lockstep (engine L)"),
 })
+
+CLAIMED.update({
+ "C01": ("Coq: the reducer chain of one action (threading, once each, result written whether Dispatch or Keep) for any "
+         "reducers/middlewares; in every reachable world of the interleaving model (any programs, threads, capacity, "
+         "schedule) the state is the latest write-back, under BlockOnFull enqueued = taken ++ queued as lists, and (C01_fold) "
+         "for programs without runtime registration the write-backs are the sequential fold of the per-action pipeline over "
+         "the taken actions, each starting from the state the previous one left. Partial: the fold under runtime registration "
+         "is decided by engines L and F (add_reducer racing a slow reducer chain) and the C01 monitor (threading, "
+         "exactly-once, lossless, final state, reducer left out).", "5 C01",
+         "Coq invariants incl. the fold over histories + lockstep schedule replay (engine L) + free runs (engine F) + monitor"),
+ "C02": ("Coq, every policy, program and schedule: what the reducer takes is an in-order subsequence of what entered the "
+         "queue (C02_fifo), and in every reachable history every enqueue lies between the invocation and the return of a "
+         "dispatch of that action - so a dispatch that returned before another was invoked is enqueued, hence taken, first. "
+         "Engine L replays schedules over all three entry points, thunks and effect workers with TX probes. Partial: a "
+         "dispatch from inside a middleware hook (the model's callbacks are pure) is covered by engine F only (family "
+         "mw_nested) with the order monitor.", "5 C02",
+         "Coq FIFO + enqueue-between-invoke-and-return invariants + lockstep schedule replay (engine L) + free runs with dispatching hooks (engine F) + order monitor"),
+ "C03": ("Coq: per action, subscribers are called iff the last reducer said Dispatch and no before_dispatch hook said Done, "
+         "each once, in registration order, with the new state; over whole runs, every program and schedule: the "
+         "reducer-context calls are, snapshot by snapshot, one per direct subscriber of the snapshot in its order "
+         "(C03_stream); the snapshots are exactly the notifying write-backs in reduce order (C03_snapshots, no runtime "
+         "registration of reducers/middlewares); and every snapshot contains every subscriber whose registration call had "
+         "returned and for which no unsubscribing call had been invoked (C03_whole_run_subscriber_in_every_snapshot). "
+         "Engines L and F with the stream monitor tie this to the code.", "5 C03",
+         "Coq history invariants (stream, snapshots, registry over histories) + lockstep schedule replay (engine L) + free runs (engine F) + stream monitor"),
+ "C07": ("Coq: the callback order of one action in closed form (BR* R* BE* BD* N*), every reducer once in registration "
+         "order; the notification calls follow the snapshot order (C03_stream) and a snapshot contains every live "
+         "registration (WorldRegistered.v). Partial: non-overlap of consecutive actions holds by construction of the single "
+         "reducer thread of the model; reducers/middlewares registered at run time are decided by engines L and F "
+         "(registration racing a slow reducer chain) and the C07 monitor (phase order, one context, registration order, "
+         "left-out).", "5 C07",
+         "Coq pure theorem + history invariants + lockstep schedule replay (engine L) + free runs (engine F) + phase/left-out monitor"),
+ "C09": ("Coq: the registry facts and the unsubscribe steps of the model; for programs with distinct registration "
+         "identifiers, every schedule: never two registry entries per identifier, and a direct subscriber is released "
+         "exactly once; for every program and schedule (WorldRegistered.v): every snapshot contains every subscriber whose "
+         "registration call had returned and for which no unsubscribing call had been invoked, and the registry keeps it "
+         "until the shutdown release is over (others' unsubscribes do not affect it). Partial: release of channeled "
+         "subscribers over histories is decided by engine L and the C09 monitor; the one late notification after "
+         "unsubscribe() (F3) is a listed known finding, witnessed in Coq and on the real code.",
+         "5 C09", "Coq registry / release / live-registration invariants + lockstep schedule replay (engine L) + free runs (engine F) + lifecycle monitor with known class F3"),
+ "C10": ("Coq, every reachable world, every subscription channel since its creation: received is an in-order subsequence of "
+         "forwarded, under BlockOnFull forwarded = received ++ queued; drop policies never wait; DropOldest keeps the newest; "
+         "a subscriber thread that has ended left an empty disconnected channel and the joins wait for it (C10_flush, "
+         "C10_joins_wait); and (C10_same_stream, distinct identifiers) while the subscriber is not released, one entry per "
+         "snapshot containing it = handed to its thread ++ queued ++ still to forward - the sequence a direct subscriber in "
+         "its place is called for. Engines L and F (stalled / slow consumers, capacities 1..3, all policies, probes that "
+         "unsubscribe waits) and the C10 monitor tie this to the code.",
+         "5 C10", "Coq channel-stream, flush and forwarding invariants + lockstep schedule replay with probes (engine L) + free runs (engine F) + monitor"),
+ "C13": ("Coq: TX and SUBS are each held by at most one thread in every reachable world; deadlock freedom of the whole "
+         "API except state iterators (any thread count, policy, capacity >= 1, schedule; channeled subscribers with distinct "
+         "identifiers included): a reachable world with no enabled thread has every call returned and every task ended; "
+         "exact enabledness of every waiting step. Partial: worlds with state iterators - by evaluation a reachable world "
+         "with no enabled thread exists after an iterator was released early (known finding F5, replayed on the real "
+         "code); engine L probes every blocking edge (api_mix over the whole API) and reports any thread that does not "
+         "arrive where the model says it can run.", "5 C13",
+         "Coq deadlock-freedom theorems (WorldLive, WorldLive2) + refuted witness + lockstep replay with probes (engine L) + stuck-thread monitor"),
+ "C14": ("Coq: what next() has yielded is exactly the prefix (BlockOnFull) of what was forwarded to the iterator since its "
+         "creation, in order, no gap or repeat; None is final; and (C14_every_notification, distinct identifiers, every "
+         "schedule) while the iterator is not released, one entry per snapshot containing it = yielded ++ queued ++ still "
+         "to forward. Partial: the end of the stream after stop() is decided by engine L (consumer thread racing producers, "
+         "unsubscribes, new subscribers and stop) and the C14 monitor.",
+         "5 C14", "Coq channel-stream and forwarding invariants + lockstep schedule replay (engine L) + free runs (engine F) + stream monitor"),
+ "C18": ("Coq: every step leaves every counter non-decreasing; in every reachable world received/dropped/reduced/"
+         "middleware/error counters equal the corresponding totals over the history; the balance received + dropped = "
+         "entered + rejected (+ marker + subscription-channel drops) whenever the queue is empty; effect_issued = the "
+         "effects the reducer calls returned. Partial: effect_executed. Engines S/L compare all public counters with the "
+         "model at every get_metrics and at the end; the balance monitor judges every history.", "5 C18",
+         "Coq counter invariants + exact differential comparison (engines S, L) + balance monitor"),
+ "C19": ("Coq: the model of two stores is a product; a step of one leaves the other's content and enabledness unchanged, and "
+         "projections of interleaved runs are runs of the single store (so every per-store theorem applies). The substance is "
+         "the correspondence: engine F runs pairs of real stores in one process (default, equal explicit and different names; "
+         "same types; a subscriber of A dispatching into a slow, small B) and judges each store alone; engine L runs single "
+         "stores.", "5 C19",
+         "Coq product/frame theorem + paired free-running stores judged per store (engine F) + lockstep (engine L)"),
+})
+
 REASON_TODO = "check not built yet in this revision (planned: see DESIGN.md section 5)"
 
 props = [json.loads(l) for l in open(os.path.join(ROOT, "properties.jsonl"))]
